@@ -35,8 +35,18 @@ EXIT_ERROR = 78
 _MUTATING_MODES = set("wax+")
 
 
+class Killed(BaseException):
+    """simulated kill (Injector(sim=True)): raised at the kill point instead of os._exit; from then on the injector is
+    `dead`: every further file-system mutation below root is suppressed (it raises Killed again, writes are dropped), so
+    the directory is exactly what a real kill would have left, whatever `finally`/`__exit__` handlers still run.
+    BaseException: `except Exception` handlers of the driver do not catch it.  The equivalence with a real kill
+    (os._exit) is cross-checked by the property modules on a sample of kill points (same directory snapshot)."""
+
+
 class Injector:
-    def __init__(self, root, log=None, kill_at=None, when="before", frac=(1, 2), keep_bytes=48):
+    def __init__(self, root, log=None, kill_at=None, when="before", frac=(1, 2), keep_bytes=48, sim=False):
+        self.sim = sim
+        self.dead = False
         self.root = os.path.realpath(root)
         self.roots = sorted({self.root, os.path.normpath(os.path.abspath(root))})
         self.kill_at = kill_at
@@ -82,12 +92,17 @@ class Injector:
 
     def _die(self, note):
         self._emit(dict(killed=note, at=self.kill_at, when=self.when))
+        if self.sim:
+            self.dead = True
+            raise Killed(note)
         if self._logfd is not None:
             os.fsync(self._logfd)
         os._exit(EXIT_KILLED)
 
     def op(self, kind, rp, perform, **kw):
         """record mutating op number self.count, kill before/after it if requested; returns perform()"""
+        if self.dead:
+            raise Killed("dead")
         k = self.count
         self.count += 1
         if self.kill_at == k and self.when == "before":
@@ -265,6 +280,8 @@ class _WFile:
 
     def write(self, data):
         inj = self._inj
+        if inj.dead:
+            return len(data)
         if not isinstance(data, str):
             data = bytes(data)
         n = len(data)
@@ -296,10 +313,12 @@ class _WFile:
         if self._closed:
             return None
         self.__dict__["_closed"] = True
+        if self._inj.dead:
+            return self._f.close()
         return self._inj.op("close", self._rp, self._f.close)
 
     def flush(self):
-        return self._f.flush()
+        return None if self._inj.dead else self._f.flush()
 
     def __enter__(self):
         return self
@@ -323,6 +342,40 @@ class _WFile:
                 self._f.close()
         except Exception:
             pass
+
+
+def simulate(fn, root, kill=None):
+    """call fn() under a recording injector with a SIMULATED kill (kill = None | dict(at, when, frac)).
+    -> dict(status='done'|'killed'|'error', value, exc, ops, queries, killed)"""
+    inj = Injector(root, kill_at=None if kill is None else kill["at"], when=(kill or {}).get("when", "before"),
+                   frac=(kill or {}).get("frac", (1, 2)), sim=True)
+    inj.install()
+    out = dict(status="done", value=None, exc=None, killed=None)
+    try:
+        out["value"] = fn()
+    except Killed as e:
+        out["status"] = "killed"
+    except Exception as e:  # noqa: BLE001 - the kind of failure is the observation
+        import traceback
+        site = ""
+        for fr in reversed(traceback.extract_tb(e.__traceback__)):
+            if "/nifty/" in fr.filename:
+                site = f"{os.path.basename(fr.filename)}:{fr.name}"
+                break
+        out.update(status="error", exc=dict(error=type(e).__name__, msg=str(e)[:300], site=site))
+    finally:
+        inj.dead = False
+        inj.uninstall()
+    ops, qs = [], []
+    for ev in inj.events:
+        if "killed" in ev:
+            out["killed"] = ev
+        elif "q" in ev:
+            qs.append(dict(ev, after_op=len(ops)))
+        elif "op" in ev:
+            ops.append(ev)
+    out.update(ops=ops, queries=qs)
+    return out
 
 
 # ------------------------------------------------------------------------------------------------ harness side
